@@ -39,7 +39,8 @@ CODES = {1: "the rows of the result frame are not the modelled set {frozenset(co
          6: "find_essential_* returned an entity that is not essential, or missed one that is",
          7: "the `knockout` accessor did not return exactly the row of a combination",
          9: "exact oracle certificate rejected (harness fault)"}
-THEOREMS = ("C06_deletion_rows, C06_deletion_growth, C06_gene_deletion_spec, C06_essential_spec, C06_moma_growth_char "
+THEOREMS = ("C06_deletion_rows, C06_reaction_deletion_spec, C06_gene_deletion_spec, C06_ko_feasible_iff, "
+            "C06_deletion_growth, C06_essential_spec, C06_moma_growth_char_partial "
             "(coq/theories/Properties/C06.v)")
 RULE = ("random stoichiometric networks with gene rules (harness/gennet.py) x {single, double} x {gene, reaction} x "
         "lists (default / partial / overlapping / with repeats, objects or ids) x method {fba, linear moma} x processes "
